@@ -30,6 +30,17 @@
 (*    thread is blocked in a task; NArb stays small here, the trace spec has no such bound;          *)
 (*  - exit codes: any integer but NoCode; negative codes in the configs that list one (the variant   *)
 (*    NegCodeIsErr = FALSE lets run() accept them);                                                  *)
+(*  - stop calls (and arbiters created between them) BEFORE run() is entered (StartIdle): all their    *)
+(*    messages are buffered when the controller is polled for the first time; the poll that handles   *)
+(*    the first Exit handles the later ones too, and every Exit stops every arbiter registered then   *)
+(*    (variant EveryExitStops = FALSE: later Exits are no-ops).  Model: MC_C09_idle.cfg; driver:       *)
+(*    flavour "twostop" (stop, Arbiter::new, stop [, Arbiter::new, stop] on the system thread or a    *)
+(*    foreign thread, then run());                                                                     *)
+(*  - the time between the end of an arbiter's loop and the exit of its thread (runtime teardown):    *)
+(*    loop = "ended"; the receiver is dropped at the end of the loop (variant RxDropAtLoopEnd = FALSE:*)
+(*    at thread exit), the end of the loop is observed at once (H_LoopEnd; driver: the destructor of  *)
+(*    a guard owned by every task that never completes sends through its handle and records the       *)
+(*    result);                                                                                         *)
 (*  - several Systems hosted one after another by ONE OS thread (driver: "rounds"): NOT modelled.    *)
 (*    The model has one System and no thread-local registers (HANDLE / CURRENT of arbiter.rs and     *)
 (*    system.rs); what `Arbiter::current()` returns is observed on the implementation only (echo     *)
@@ -56,14 +67,20 @@ CONSTANTS NArb,      \* worker arbiters 1..NArb (0 is the system arbiter)
           SelfSendViaChannel, \* design TRUE; FALSE: a send from the arbiter's own thread skips the command channel
                      \* and goes straight into the local run queue
           NegCodeIsErr, \* design TRUE; FALSE: run() reports Ok for negative exit codes
-          CtrlBatch  \* design 0; K > 0: the controller handles at most K messages per poll, then sleeps for good
+          CtrlBatch, \* design 0; K > 0: the controller handles at most K messages per poll, then sleeps for good
+          StartIdle, \* TRUE: the System exists but run() has not been entered yet (nothing polls the controller or the
+                     \* system arbiter until RunEnter); FALSE: run() was entered before anything else happens
+          EveryExitStops, \* design TRUE; FALSE: only the first Exit stops the registered arbiters, later ones are no-ops
+          RxDropAtLoopEnd \* design TRUE; FALSE: the arbiter's receiver is dropped only when its thread exits: between
+                     \* the end of the loop and the exit, sends still report true and are discarded
 
 VARIABLES thr,      \* client thread -> [pc, cmd, ok]
           tasks,    \* task id -> [arb, kind, body, code]
           sysq,     \* controller's queue
-          ctrl,     \* [alive, registry, codeSent, half, batch, stuck]
+          ctrl,     \* [alive, registry, codeSent, half, batch, stuck, owed]; owed: messages at the head of sysq that
+                    \* the poll which sent the code still handles before run can return
           oneshot,  \* NoCode empty, else the code
-          runst,    \* "running" | "returned"
+          runst,    \* "idle" (run() not entered yet) | "running" | "returned"
           arb,      \* 0..NArb -> [loop, cmdq, localq, busy, stopping]
           ntask,    \* arb -> number of tasks sent to it (task id = 10 * arb + n: canonical per arbiter)
           ncmd, nsys,
@@ -91,19 +108,21 @@ Init ==
   /\ thr = [t \in Thr |-> [pc |-> "idle", cmd |-> NoCmd, ok |-> TRUE]]
   /\ tasks = EmptyFn
   /\ sysq = <<>>
-  /\ ctrl = [alive |-> TRUE, registry |-> 0..PreCreated, codeSent |-> FALSE, half |-> FALSE, batch |-> 0, stuck |-> FALSE]
-  /\ oneshot = NoCode /\ runst = "running"
+  /\ ctrl = [alive |-> TRUE, registry |-> 0..PreCreated, codeSent |-> FALSE, half |-> FALSE, batch |-> 0, stuck |-> FALSE,
+             owed |-> 0]
+  /\ oneshot = NoCode /\ runst = IF StartIdle THEN "idle" ELSE "running"
   /\ arb = [a \in Arbs |-> [loop |-> IF a <= PreCreated THEN "run" ELSE "none", cmdq |-> <<>>, localq |-> <<>>,
                             busy |-> FALSE, stopping |-> FALSE, regPending |-> FALSE]]
   /\ ntask = [a \in Arbs |-> 0] /\ ncmd = 0 /\ nsys = 0
   /\ h = H_BlockOn([HInit EXCEPT !.clients = Thr \cup {SysTid}, !.sysTid = SysTid, !.sysId = TheSysId,
-                                 !.created = 1..PreCreated],
+                                 !.created = 1..PreCreated, !.runEntered = ~StartIdle],
                    5, IF BlockOnExact THEN 5 ELSE 6)
   /\ act = A("init", 0, 0)
 
-RxAlive(a) == arb[a].loop = "run"
+\* the receiver of the command channel exists (a send is accepted)
+RxAlive(a) == arb[a].loop = "run" \/ (~RxDropAtLoopEnd /\ a # 0 /\ arb[a].loop = "ended")
 SysThreadFree == runst = "running" /\ ~arb[0].busy
-CanStep(a) == RxAlive(a) /\ ~arb[a].busy /\ ~arb[a].regPending /\ (a = 0 => runst = "running")
+CanStep(a) == arb[a].loop = "run" /\ ~arb[a].busy /\ ~arb[a].regPending /\ (a = 0 => runst = "running")
 
 (* ---------------------------- clients ---------------------------- *)
 Bodies(kind, a) ==
@@ -139,7 +158,7 @@ IssueSysStop(t) ==
     /\ nsys < MaxSys
     /\ thr' = [thr EXCEPT ![t] = [pc |-> "call", ok |-> TRUE, cmd |-> [NoCmd EXCEPT !.op = "sysstop", !.code = c]]]
     /\ nsys' = nsys + 1
-    /\ h' = H_SysStopStart(h, c)
+    /\ h' = H_SysStopStart(h, c, t)
     /\ act' = A("SysStopStart", t, c)
     /\ UNCHANGED <<tasks, ntask>>
 
@@ -179,7 +198,7 @@ SendEnd(t) ==
   /\ thr' = [thr EXCEPT ![t].pc = "idle"]
   /\ h' = CASE c.op = "send" -> H_SendEnd(h, c.id, thr[t].ok)
             [] c.op = "stop" -> H_StopEnd(h, c.arb)
-            [] c.op = "sysstop" -> H_SysStopEnd(h)
+            [] c.op = "sysstop" -> H_SysStopEnd(h, t)
   /\ act' = A("SendEnd", t, c.id)
   /\ UNCHANGED <<tasks, sysq, ctrl, oneshot, runst, arb, ntask, ncmd, nsys>>
 
@@ -210,7 +229,7 @@ CallAtomic(t) ==
      \/ \E c \in Codes :
           /\ nsys < MaxSys /\ nsys' = nsys + 1
           /\ sysq' = IF ctrl.alive THEN Append(sysq, [k |-> "exit", v |-> c]) ELSE sysq
-          /\ h' = H_SysStopEnd(H_SysStopStart(h, c))
+          /\ h' = H_SysStopEnd(H_SysStopStart(h, c, t), t)
           /\ act' = A("SysStop", t, c)
           /\ UNCHANGED <<tasks, ntask, arb>>
   /\ UNCHANGED <<thr, ctrl, oneshot, runst>>
@@ -244,15 +263,19 @@ ArbDequeue(a) ==
                                  ![a].localq = IF ExecuteOnce THEN Append(@, m.id) ELSE Append(Append(@, m.id), m.id)]
          ELSE IF StopEndsLoop THEN arb' = EndLoop(a)
               ELSE arb' = [arb EXCEPT ![a].cmdq = Tail(@), ![a].stopping = TRUE]   \* wrong design: keeps draining
+  \* the end of a worker's loop is observed at the earliest moment (the strongest case): in the implementation by the
+  \* destructor of a value owned by a task that never completes
+  /\ h' = IF Head(arb[a].cmdq).k # "exec" /\ StopEndsLoop /\ a # 0 THEN H_LoopEnd(h, a) ELSE h
   /\ act' = A("ArbDequeue", a, 0)
-  /\ UNCHANGED <<thr, tasks, sysq, ctrl, oneshot, runst, ntask, ncmd, nsys, h>>
+  /\ UNCHANGED <<thr, tasks, sysq, ctrl, oneshot, runst, ntask, ncmd, nsys>>
 
 \* wrong design only: the loop ends when a Stop was seen and the channel is drained
 ArbDrainEnd(a) ==
   /\ ~StopEndsLoop /\ CanStep(a) /\ arb[a].stopping /\ arb[a].cmdq = <<>>
   /\ arb' = EndLoop(a)
+  /\ h' = IF a # 0 THEN H_LoopEnd(h, a) ELSE h
   /\ act' = A("ArbDrainEnd", a, 0)
-  /\ UNCHANGED <<thr, tasks, sysq, ctrl, oneshot, runst, ntask, ncmd, nsys, h>>
+  /\ UNCHANGED <<thr, tasks, sysq, ctrl, oneshot, runst, ntask, ncmd, nsys>>
 
 ArbStartTask(a) ==
   /\ CanStep(a) /\ arb[a].localq # <<>>
@@ -278,7 +301,7 @@ ArbStartTask(a) ==
                   ELSE UNCHANGED <<tasks, ntask>>
        /\ IF tk.body = "sys"
             THEN /\ sysq' = IF ctrl.alive THEN Append(sysq, [k |-> "exit", v |-> tk.code]) ELSE sysq
-                 /\ h' = H_SysStopEnd(H_SysStopStart(h1, tk.code))
+                 /\ h' = H_SysStopEnd(H_SysStopStart(h1, tk.code, ArbTid(a)), ArbTid(a))
             ELSE /\ h' = (IF self THEN h3 ELSE h1) /\ UNCHANGED sysq
        /\ act' = A("TaskStart", a, id)
   /\ UNCHANGED <<thr, ctrl, oneshot, runst, ncmd, nsys>>
@@ -290,7 +313,7 @@ ArbYield(a) ==
 
 ArbDeregister(a) ==
   /\ a # 0 /\ arb[a].loop = "ended"
-  /\ arb' = [arb EXCEPT ![a].loop = "exited"]
+  /\ arb' = [arb EXCEPT ![a].loop = "exited", ![a].cmdq = <<>>]   \* (wrong design RxDropAtLoopEnd = FALSE: discarded)
   /\ sysq' = IF ctrl.alive THEN Append(sysq, [k |-> "dereg", v |-> a]) ELSE sysq
   \* the thread exits: join returns (observed at the earliest moment, which is the strongest case)
   /\ h' = IF EagerJoin /\ ~Has(h.joined, a) /\ a \notin h.earlyTimeout THEN H_Join(h, a, TRUE) ELSE h
@@ -317,6 +340,7 @@ JoinTimeout(a) ==
 
 (* ---------------------------- system thread ---------------------------- *)
 MaxOf(S) == CHOOSE x \in S : \A y \in S : y <= x
+Less1(n) == IF n > 0 THEN n - 1 ELSE 0
 StopAll(targets) == [b \in Arbs |-> IF b \in targets /\ RxAlive(b)
                                       THEN [arb[b] EXCEPT !.cmdq = Append(@, [k |-> "stop", id |-> 0])] ELSE arb[b]]
 Targets == IF ExitStopsAll \/ ctrl.registry \ {0} = {} THEN ctrl.registry
@@ -325,6 +349,10 @@ NewCode(c) == IF ~ctrl.codeSent \/ ~FirstCodeKept THEN c ELSE oneshot
 
 \* One message per step (a poll of the real controller handles all buffered messages; other threads may append
 \* between two steps, which is the same as their messages having been buffered when the poll began).
+\* The poll that sends the code goes on until it finds the queue empty, and run() can only return after it: every
+\* message buffered behind that Exit at that moment is still handled (`owed`; RunReturn waits for owed = 0).  Messages
+\* that arrive later may or may not be handled before the runtime is dropped.
+\* Every Exit stops every registered arbiter (wrong design EveryExitStops = FALSE: only the one that sends the code).
 \* Wrong design CtrlBatch = K > 0 only: `batch` counts the messages taken in the current poll; a poll ends (batch 0,
 \* waker registered) when the queue is found empty; after the K-th message of one poll the controller returns
 \* Pending without a registered waker and is never polled again (`stuck`).
@@ -335,15 +363,19 @@ Polled(c, q) ==
 CtrlStep ==
   /\ ctrl.alive /\ ~ctrl.stuck /\ SysThreadFree /\ sysq # <<>>
   /\ LET m == Head(sysq) IN
-       CASE m.k = "reg" -> /\ ctrl' = Polled([ctrl EXCEPT !.registry = @ \cup {m.v}], Tail(sysq))
+       CASE m.k = "reg" -> /\ ctrl' = Polled([ctrl EXCEPT !.registry = @ \cup {m.v}, !.owed = Less1(@)], Tail(sysq))
                            /\ sysq' = Tail(sysq) /\ UNCHANGED <<arb, oneshot>>
-         [] m.k = "dereg" -> /\ ctrl' = Polled([ctrl EXCEPT !.registry = @ \ {IF DeregOwnId THEN m.v ELSE (m.v % NArb) + 1}],
+         [] m.k = "dereg" -> /\ ctrl' = Polled([ctrl EXCEPT !.registry = @ \ {IF DeregOwnId THEN m.v ELSE (m.v % NArb) + 1},
+                                                            !.owed = Less1(@)],
                                                Tail(sysq))
                              /\ sysq' = Tail(sysq) /\ UNCHANGED <<arb, oneshot>>
          [] m.k = "exit" ->
               IF StopBeforeCode
-                THEN /\ arb' = StopAll(Targets) /\ oneshot' = NewCode(m.v)
-                     /\ ctrl' = Polled([ctrl EXCEPT !.codeSent = TRUE], Tail(sysq)) /\ sysq' = Tail(sysq)
+                THEN /\ arb' = IF EveryExitStops \/ ~ctrl.codeSent THEN StopAll(Targets) ELSE arb
+                     /\ oneshot' = NewCode(m.v)
+                     /\ ctrl' = Polled([ctrl EXCEPT !.codeSent = TRUE,
+                                                    !.owed = IF ctrl.codeSent THEN Less1(@) ELSE Len(Tail(sysq))], Tail(sysq))
+                     /\ sysq' = Tail(sysq)
                 ELSE IF ~ctrl.half                                   \* wrong design: code first, arbiters later
                   THEN /\ oneshot' = NewCode(m.v) /\ ctrl' = [ctrl EXCEPT !.codeSent = TRUE, !.half = TRUE]
                        /\ UNCHANGED <<arb, sysq>>
@@ -352,10 +384,17 @@ CtrlStep ==
   /\ act' = A("Ctrl", 0, 0)
   /\ UNCHANGED <<thr, tasks, runst, ntask, ncmd, nsys, h>>
 
+\* run() / run_with_code() is entered (StartIdle only): from now on the system thread polls the runtime
+RunEnter ==
+  /\ runst = "idle" /\ runst' = "running"
+  /\ h' = H_RunCall(h)
+  /\ act' = A("RunEnter", 0, 0)
+  /\ UNCHANGED <<thr, tasks, sysq, ctrl, oneshot, arb, ntask, ncmd, nsys>>
+
 RunReturn ==
-  /\ SysThreadFree /\ oneshot # NoCode
+  /\ SysThreadFree /\ oneshot # NoCode /\ (ctrl.owed = 0 \/ ctrl.stuck)
   /\ runst' = "returned"
-  /\ ctrl' = [ctrl EXCEPT !.alive = FALSE, !.half = FALSE]
+  /\ ctrl' = [ctrl EXCEPT !.alive = FALSE, !.half = FALSE, !.owed = 0]
   /\ sysq' = <<>>
   /\ arb' = EndLoop(0)
   /\ \E api \in {"run", "run_with_code"} :
@@ -366,7 +405,7 @@ RunReturn ==
 
 Internal == \/ \E t \in Thr : Enq(t) \/ SendEnd(t)
             \/ \E a \in Arbs : ArbLateRegister(a) \/ ArbDequeue(a) \/ ArbDrainEnd(a) \/ ArbStartTask(a) \/ ArbYield(a) \/ ArbDeregister(a)
-            \/ CtrlStep \/ RunReturn
+            \/ CtrlStep \/ RunEnter \/ RunReturn
 Next == \/ Internal
         \/ \E t \in Thr : Issue(t) \/ CallAtomic(t)
         \/ NewArbiter
@@ -378,11 +417,11 @@ Fairness == /\ \A t \in Thr : WF_vars(Enq(t)) /\ WF_vars(SendEnd(t))
             /\ \A a \in Arbs : /\ WF_vars(ArbLateRegister(a)) /\ WF_vars(ArbDequeue(a)) /\ WF_vars(ArbDrainEnd(a)) /\ WF_vars(ArbStartTask(a))
                                /\ WF_vars(ArbYield(a)) /\ WF_vars(ArbDeregister(a))
             /\ \A a \in Workers : WF_vars(JoinReturn(a))
-            /\ WF_vars(CtrlStep) /\ WF_vars(RunReturn)
+            /\ WF_vars(CtrlStep) /\ WF_vars(RunEnter) /\ WF_vars(RunReturn)
 FairSpec == Spec /\ Fairness
 
 (* ---------------------------- properties on the internal state ---------------------------- *)
-TypeOK == /\ oneshot \in Codes \cup {NoCode} /\ runst \in {"running", "returned"}
+TypeOK == /\ oneshot \in Codes \cup {NoCode} /\ runst \in {"idle", "running", "returned"} /\ ctrl.owed \in Nat
           /\ \A a \in Arbs : arb[a].loop \in {"none", "run", "ended", "exited"}
           /\ ctrl.registry \subseteq Arbs
 
